@@ -46,8 +46,17 @@ func checkC09(c caseC09) (Outcome, error) {
 	o1 := r1.Out
 	// The model's prediction of the canonical form.
 	// (klog surrounds the records with an empty line; that framing is presentation, not asserted)
-	want := model.CanonRender(c.Doc)
-	if strings.Trim(o1, "\n") != strings.Trim(want, "\n") || (len(c.Doc.Records) == 0 && strings.TrimSpace(o1) != "") {
+	// A lopsided dash (`8:00- 9:00`) has no defined notation: any consistent reading is accepted.
+	want, matched := model.CanonRender(c.Doc), false
+	for rule := 0; rule < 4 && !matched; rule++ {
+		if w := model.CanonRenderBy(c.Doc, rule); strings.Trim(o1, "\n") == strings.Trim(w, "\n") {
+			matched = true
+			if rule != 0 {
+				out.Label("lopsided-dash-read-differently")
+			}
+		}
+	}
+	if !matched || (len(c.Doc.Records) == 0 && strings.TrimSpace(o1) != "") {
 		return out, fmt.Errorf("print output is not the canonical form of the input\ninput: %s\ngot:   %s\nwant:  %s", quoteShort(text), quoteShort(o1), quoteShort(want))
 	}
 	// The output is a valid file that parses to the same records.
